@@ -142,7 +142,9 @@ def gen(rng, n):
         other = rng.randrange(nflows)
         cross = rng.random() < 0.35
         if k in ("authz", "finalize"):
-            st = rng.choice(["own", "own", "own", "own", "unknown", "truncated", "missing"]) if cross else "own"
+            # "nonce" / "sub": a value that was never issued as a state but that the client's store knows as a key of another kind
+            # (the nonce of a pending flow, the subject of a finished login) — an alias is not a state
+            st = rng.choice(["own", "own", "own", "own", "unknown", "truncated", "missing", "nonce", "nonce", "sub"]) if cross else "own"
             ops.append([k, {"to": rng.choice(["own", "own", "own", "other"]) if cross else "own", "state_of": f, "state": st, "code_of": other if cross else f,
                             "iss": rng.choice([None, "own", "own", "other"]) if cross else rng.choice([None, "own"]),
                             "cid": rng.choice([None, "own", "other"]) if cross else None,
@@ -216,6 +218,10 @@ def _o2_impl(c):
 def corpus():
     f0 = {"to": "own", "state_of": 0, "state": "own", "code_of": 0, "iss": None, "cid": None, "idt_of": 0}
     return [
+        # a response whose state is the NONCE of the other pending flow / the subject of a finished login (keys of the binding map, not states)
+        {"t": "hist", "ops": [["begin", 0, "alice", "code"], ["begin", 0, "bob", "code"], ["authz", dict(f0, state="nonce", code_of=1)], ["authz", dict(f0, state="nonce", code_of=0)],
+                              ["authz", f0], ["tokens", {"flow": 0, "idt_of": 0, "idt": True, "drop_nonce": False, "sub": None, "sub_of": 0}], ["finalize", dict(f0, state="nonce", code_of=1)],
+                              ["authz", dict(f0, state="sub", code_of=1)], ["authz", dict(f0, state_of=1, code_of=1, idt_of=1)]]},
         # an authorization response with an extra nonce parameter, then an ID token carrying that nonce (hybrid flow), then the token response likewise
         {"t": "hist", "ops": [["begin", 0, "alice", "code id_token"], ["begin", 0, "bob", "code id_token"],
                               ["authz", dict(f0, resp_nonce_of=1)], ["authz", dict(f0, idt_of=1)],
@@ -269,7 +275,8 @@ def impl(c):
                 fs, fc, fi = W.flows[a["state_of"]], W.flows[a["code_of"]], W.flows[a["idt_of"]]
                 to = fs["iss"] if a["to"] == "own" else [i for i in ISSUERS if i != fs["iss"]][0]
                 resp = {"code": fc["code"]}
-                st = {"own": fs["state"], "unknown": "no-such-state-0123456789abcdef", "truncated": fs["state"][:-1], "missing": None}[a["state"]]
+                st = {"own": fs["state"], "unknown": "no-such-state-0123456789abcdef", "truncated": fs["state"][:-1], "missing": None,
+                      "nonce": fc["nonce"] or fs["nonce"] or "no-such-state-0123456789abcdef", "sub": "sub-" + fs["user"]}[a["state"]]
                 if st is not None:
                     resp["state"] = st
                 if a["iss"]:
